@@ -277,7 +277,7 @@ def gauss(speed, t0, t1, panels=64):
 def _rand_seg(P, r, scale):
     z = lambda: complex(r.uniform(-1, 1), r.uniform(-1, 1)) * scale
     kind = r.choice(['line', 'quad', 'quad', 'cubic', 'cubic', 'arc'])
-    shape = r.choice(['generic', 'generic', 'collinear', 'foldback', 'repeated', 'axis'])
+    shape = r.choice(['generic', 'generic', 'collinear', 'foldback', 'repeated', 'axis', 'loop'])
     if kind == 'line':
         a, b = z(), z()
         if shape == 'axis':
@@ -295,6 +295,11 @@ def _rand_seg(P, r, scale):
     n = 3 if kind == 'quad' else 4
     if shape == 'generic':
         ps = [z() for _ in range(n)]
+    elif shape == 'loop':     # a closed loop: end == start exactly (zero chord, positive length)
+        ps = [z() for _ in range(n)]
+        ps[-1] = ps[0]
+        if n == 4 and r.random() < 0.3:   # mirror-symmetric teardrop: point(t) and point(1-t) share a coordinate
+            ps = [ps[0], ps[0] + complex(1, 1) * scale, ps[0] + complex(-1, 1) * scale, ps[0]]
     else:
         a = z()
         d = z()
@@ -388,6 +393,8 @@ def sample(ctx, budget=1.0, hint=None, broken=None):
             except Exception:
                 continue
             t0, t1 = sorted([r.choice([0.0, r.uniform(0, 1)]), r.choice([1.0, r.uniform(0, 1)])])
+            if shape == 'loop' and r.random() < 0.6:
+                t0, t1 = 0.0, 1.0
             rep = 'svgpathtools.%r' % (seg,)
             tag = '%s scipy=%s' % (kind, mode)
             n_eval += 1
